@@ -571,4 +571,38 @@ example :
       some ["s:http".toList, "h:fr".toList, "h:lemonde".toList, "p:a%2Fb".toList] := by
   decide +kernel
 
+/-! ## URLs the parser refuses (FX-C07-FPTOTAL), the modelled parser inside -/
+
+/-- **the fingerprint pair on a string the modelled parser refuses** (`fingerprinted_hostname_unparseable`
+with nothing shipped): `fingerprint_url(u)` is `u.lower()` under both `unsplit`, and — `u` needing no
+cleaning and carrying no redirection — `get_fingerprinted_hostname(u)` is `None` exactly when the
+parser reads no host in that result after a scheme is ensured -/
+theorem fingerprinted_hostname_unparseable_string (puny : Str → Str) (trie : SNode Str) (sfx : Bool)
+    (u : Str) (hp : parseUrl (prepared id true (lower u)).1 = none)
+    (hclean : helperString true (lower u) = ensureProtocol (lower u) httpStr) :
+    fingerprintUrlStringSplit puny id trie sfx u = .ok (.inl (lower u)) ∧
+    fingerprintUrlString puny id trie sfx u = .ok (lower u) ∧
+    (getFingerprintedHostname (stringEnv puny id trie) hostOfModel true sfx u = .ok none ↔
+      hostAfterEnsure hostOfModel (lower u) = none) := by
+  have e1 : (stringEnv puny id trie).parse = parseUrl := rfl
+  have e2 : (stringEnv puny id trie).platform = id := rfl
+  have hp' : (stringEnv puny id trie).parse
+      (prepared (stringEnv puny id trie).platform true (lower u)).1 = none := by
+    rw [e1, e2]; exact hp
+  obtain ⟨h1, h2, _, h4⟩ := fingerprinted_hostname_unparseable (stringEnv puny id trie) hostOfModel sfx u hp' hclean
+  exact ⟨by rw [fingerprintUrlStringSplit_eq]; exact h1, by rw [fingerprintUrlString_eq]; exact h2, h4⟩
+
+/-- non-vacuity, both sides of the equivalence: an unbalanced bracket (the helper answers `None`, no
+host in the result) … -/
+example : parseUrl (prepared id true (lower "HTTP://[X/".toList)).1 = none := by decide +kernel
+example : helperString true (lower "HTTP://[X/".toList) = ensureProtocol (lower "HTTP://[X/".toList) httpStr := by
+  decide +kernel
+example : hostAfterEnsure hostOfModel (lower "HTTP://[X/".toList) = none := by decide +kernel
+/-- … and a refused port (a host on both sides) -/
+example : parseUrl (prepared id true (lower "http://a.com:99999/".toList)).1 = none := by decide +kernel
+example : helperString true (lower "http://a.com:99999/".toList) =
+    ensureProtocol (lower "http://a.com:99999/".toList) httpStr := by decide +kernel
+example : hostAfterEnsure hostOfModel (lower "http://a.com:99999/".toList) = some "a.com".toList := by
+  decide +kernel
+
 end Ural.Props.C07
